@@ -186,7 +186,7 @@ class Projector:
       node['k'] = ('partial' if isinstance(x, fdl.Partial) else
                    'argfactory' if isinstance(x, fdl.ArgFactory) else
                    'tagged' if isinstance(x, config_lib.TaggedValueCls) else 'config')
-      node['fn'] = FN_ID.get(id(x.__fn_or_cls__), -1)
+      node['fn'] = 0 if node['k'] == 'tagged' else FN_ID.get(id(x.__fn_or_cls__), -1)
       args = dict(fdl.ordered_arguments(x))
       for n, ts in x.__argument_tags__.items():
         if ts and n not in args:
